@@ -14,6 +14,10 @@ S = "SILENT"
 V = []
 
 
+def add_multi(vid, kind, pids, edits, expect=None):
+    V.append({"id": vid, "kind": kind, "pids": pids if isinstance(pids, (list, tuple)) else [pids], "edits": edits, "expect": expect, "path": None, "all": False})
+
+
 def add(vid, kind, pids, path, old, new, expect=None, all_occurrences=False):
     V.append({"id": vid, "kind": kind, "pids": pids if isinstance(pids, (list, tuple)) else [pids], "path": path, "old": old, "new": new,
               "expect": expect, "all": all_occurrences})
@@ -225,3 +229,30 @@ add("s-exit-attr-order", S, ["C07"], "dfols/solver.py", "        self.EXIT_SLOW_
 add("s-to-dict-order", S, ["C20"], "dfols/solver.py", "        soln_dict['nf'] = int(self.nf)\n        soln_dict['nx'] = int(self.nx)", "        soln_dict['nx'] = int(self.nx)\n        soln_dict['nf'] = int(self.nf)")
 add("s-x0-copy-then-astype", S, ["C19", "C01"], "dfols/solver.py", "    x0 = x0.astype(float)\n    n = len(x0)", "    x0 = np.array(x0, dtype=float)\n    n = len(x0)")
 add("s-swap-order", S, ["C17", "C16"], "dfols/model.py", "        self.objval[[k1, k2]] = self.objval[[k2, k1]]\n        self.eval_num[[k1, k2]] = self.eval_num[[k2, k1]]", "        self.eval_num[[k1, k2]] = self.eval_num[[k2, k1]]\n        self.objval[[k1, k2]] = self.objval[[k2, k1]]")
+
+add_multi("s-new-parameter-added-consistently", S, ["C07", "C18"], [
+    ("dfols/params.py", "        self.params[\"general.check_objfun_for_overflow\"] = True\n", "        self.params[\"general.check_objfun_for_overflow\"] = True\n        self.params[\"general.extra_option\"] = 1.5\n"),
+    ("dfols/params.py", "        elif key == \"general.check_objfun_for_overflow\":\n            type_str, nonetype_ok, lower, upper = 'bool', False, None, None\n",
+     "        elif key == \"general.check_objfun_for_overflow\":\n            type_str, nonetype_ok, lower, upper = 'bool', False, None, None\n        elif key == \"general.extra_option\":\n            type_str, nonetype_ok, lower, upper = 'float', False, 0.0, None\n"),
+    ("docs/advanced.rst", "* :code:`general.check_objfun_for_overflow`", "* :code:`general.extra_option` - An extra option. Default is 1.5.\n* :code:`general.check_objfun_for_overflow`"),
+])
+add_multi("new-parameter-not-typed", F, ["C07"], [
+    ("dfols/params.py", "        self.params[\"general.check_objfun_for_overflow\"] = True\n", "        self.params[\"general.check_objfun_for_overflow\"] = True\n        self.params[\"general.extra_option\"] = 1.5\n"),
+    ("docs/advanced.rst", "* :code:`general.check_objfun_for_overflow`", "* :code:`general.extra_option` - An extra option. Default is 1.5.\n* :code:`general.check_objfun_for_overflow`"),
+], "defaulted-not-typed")
+add_multi("s-new-exit-code-added-consistently", S, ["C07", "C10"], [
+    ("dfols/controller.py", "EXIT_EVAL_ERROR = -4  # error, objective evaluation error (e.g. nan result received)\n", "EXIT_EVAL_ERROR = -4  # error, objective evaluation error (e.g. nan result received)\nEXIT_OTHER_WARNING = 6  # reserved\n"),
+    ("dfols/controller.py", "'EXIT_TR_INCREASE_WARNING']", "'EXIT_TR_INCREASE_WARNING', 'EXIT_OTHER_WARNING']"),
+    ("dfols/controller.py", "        elif self.flag == EXIT_EVAL_ERROR:\n            return \"Error (function evaluation): \" + self.msg\n", "        elif self.flag == EXIT_EVAL_ERROR:\n            return \"Error (function evaluation): \" + self.msg\n        elif self.flag == EXIT_OTHER_WARNING:\n            return \"Warning (other): \" + self.msg\n"),
+    ("dfols/solver.py", "        self.EXIT_EVAL_ERROR = EXIT_EVAL_ERROR\n", "        self.EXIT_EVAL_ERROR = EXIT_EVAL_ERROR\n        self.EXIT_OTHER_WARNING = EXIT_OTHER_WARNING\n"),
+    ("docs/userguide.rst", "* :code:`soln.EXIT_EVAL_ERROR`", "* :code:`soln.EXIT_OTHER_WARNING` - reserved.\n* :code:`soln.EXIT_EVAL_ERROR`"),
+])
+add_multi("rhoend-direct-store-at-one-site-only", F, ["C18"], [
+    ("dfols/controller.py", "        self.rhoend = params(\"restarts.rhoend_scale\") * self.rhoend  # the new run's rhoend (the main loop rescales its own copy identically)\n", ""),
+    ("dfols/solver.py", "                current_iter = -1\n                nruns_so_far += 1\n                rhoend = params(\"restarts.rhoend_scale\") * rhoend\n                restart_auto_detect_full = False\n                restart_auto_detect_delta = -1.0 * np.ones((params(\"restarts.auto_detect.history\"),))\n                restart_auto_detect_chgJ = -1.0 * np.ones((params(\"restarts.auto_detect.history\"),))\n                continue  # next iteration\n            else:\n                exit_info = ExitInformation(EXIT_SUCCESS, \"All points within noise level\")",
+     "                current_iter = -1\n                nruns_so_far += 1\n                rhoend = params(\"restarts.rhoend_scale\") * rhoend\n                control.rhoend = rhoend\n                restart_auto_detect_full = False\n                restart_auto_detect_delta = -1.0 * np.ones((params(\"restarts.auto_detect.history\"),))\n                restart_auto_detect_chgJ = -1.0 * np.ones((params(\"restarts.auto_detect.history\"),))\n                continue  # next iteration\n            else:\n                exit_info = ExitInformation(EXIT_SUCCESS, \"All points within noise level\")"),
+], "C18-5")
+add_multi("s-rhoend-chained-store-at-every-site", S, ["C18", "C10"], [
+    ("dfols/controller.py", "        self.rhoend = params(\"restarts.rhoend_scale\") * self.rhoend  # the new run's rhoend (the main loop rescales its own copy identically)\n", ""),
+    ("dfols/solver.py", "            rhoend = params(\"restarts.rhoend_scale\") * rhoend\n", "            rhoend = control.rhoend = params(\"restarts.rhoend_scale\") * rhoend\n", True),
+])
